@@ -57,19 +57,19 @@ def sequence_groups_of_otel_events_asynchronously(
     if not ordered_groups:
         return []
     ordered_groups_async: list[list[OTelEvent]] = [ordered_groups[0]]
-    max_timestamp = ordered_groups[0][-1].end_timestamp
+    # latest end time of the chain of overlapping groups built so far
+    max_timestamp = max(
+        event.end_timestamp for event in ordered_groups[0]
+    )
     for group in ordered_groups[1:]:
-        previous_group_last_event = ordered_groups_async[-1][-1]
         group_first_event = group[0]
-        group_last_event = group[-1]
-        if (
-            previous_group_last_event.end_timestamp
-            < group_first_event.start_timestamp
-        ):
+        if max_timestamp < group_first_event.start_timestamp:
             ordered_groups_async.append(group)
         else:
             ordered_groups_async[-1].extend(group)
-        max_timestamp = max(max_timestamp, group_last_event.end_timestamp)
+        max_timestamp = max(
+            max_timestamp, *(event.end_timestamp for event in group)
+        )
     return ordered_groups_async
 
 
